@@ -20,6 +20,12 @@ def run(chk):
     core_rules.division_guards(chk, "C10")
     core_rules.sizing_loop_cap(chk, "C10")
     core_rules.writable_history_views(chk, "C10")
+    from .algo_equiv import check_equiv
+    from .c20 import REFS as RISK_REFS
+    for cls, name, src, what in RISK_REFS:
+        if (cls, name) == ("UpdateRisk", "_set_risk_recursive"):
+            # finite numbers: a flat position has zero risk whatever its (possibly missing) unit risk is
+            check_equiv(chk, "C20.R1", "bt/algos.py", cls, name, src, "documented-behaviour", "%s.%s: %s" % (cls, name, what), no_inline=("_set_risk_recursive",), limit=14)
 
 
 def price_guard_in_allocate(chk):
